@@ -832,6 +832,57 @@ def stage_resend(ctx: Ctx):
                                                   {**rec, 'got': got_after[:12], 'expected': ref_after[:12]})
 
 
+def stage_both_pairing(ctx: Ctx):
+    """deterministic: on='both' with send(False) at the ENTRY of one node - every node of the program in turn, the walk root itself included (tree root, or the node as walk root):
+    nothing below that node is yielded, and the events form a balanced sequence: every node that was entered is left exactly once, innermost first"""
+    import fst
+    for src in RESEND_PROGS:
+        probe = fst.FST(src, 'exec')
+        paths = [probe.child_path(f, True) for f in probe.walk(True)]
+        for tp in paths:
+            for wroot in ('tree', 'self'):
+                for back in (False, True):
+                    for sendv in (False, None):
+                        root = fst.FST(src, 'exec')
+                        T = root.child_from_path(tp) if tp else root
+                        W = root if wroot == 'tree' else T
+                        rec = {'src': src, 'target': tp or 'root', 'walk_root': wroot, 'back': back, 'sent_at_entry': repr(sendv)}
+                        events = []
+                        try:
+                            gen = W.walk(True, on='both', back=back)
+                            for n, leaving in gen:
+                                events.append((n, leaving))
+                                if len(events) > 2000:
+                                    raise RuntimeError('walk does not end')
+                                if n is T and not leaving and sendv is not None:
+                                    again = gen.send(sendv)
+                                    if again is None or again[0] is not T or again[1] is not False:
+                                        ctx.violation('both-pairing|send-return', 'send() at an entry yield does not return the same entry event again', {**rec, 'returned': None if again is None else [again[0].src[:30], again[1]]})
+                        except Exception as e:
+                            ctx.violation(f'walk-raise|both-pairing|{type(e).__name__}', 'the walk raised', {**rec, 'error': repr(e)[:200]})
+                            continue
+                        ctx.tick(('both-pairing', src, tp, wroot, back, sendv), 'both-pairing:' + ('send-false' if sendv is False else 'plain'))
+                        stack, bad = [], None
+                        for n, leaving in events:
+                            if not leaving:
+                                stack.append(n)
+                            elif not stack or stack[-1] is not n:
+                                bad = f'left {type(n.a).__name__} {n.src[:30]!r} while {"nothing" if not stack else repr(stack[-1].src[:30])} was the innermost entered node'
+                                break
+                            else:
+                                stack.pop()
+                        if bad is None and stack:
+                            bad = f'{type(stack[-1].a).__name__} {stack[-1].src[:30]!r} was entered and never left'
+                        if bad:
+                            ctx.violation(f'both-pairing|{"root" if T is W else "inner"}|{"send-false" if sendv is False else "plain"}', 'on="both": an entered node is not left exactly once (innermost first)',
+                                          {**rec, 'problem': bad, 'events': [[type(n.a).__name__, l] for n, l in events][:12]})
+                            continue
+                        if sendv is False:
+                            below = [n for n, l in events if n is not T and any(p is T for p in n.parents())]
+                            if below:
+                                ctx.violation('both-pairing|send-false-ignored', 'send(False) at the entry of a node did not keep the walk out of it', {**rec, 'yielded_below': [b.src[:30] for b in below][:5]})
+
+
 def stage_entry_send(ctx: Ctx):
     """send(True) at the ENTRY yield of a node (on='enter' / on='both'), with and without a replacement of the node at that yield: its (new) children are
     walked next, all of them whatever `recurse` says, the node is not entered a second time, is left exactly once after them when on='both', and the walk
@@ -925,6 +976,7 @@ def run(ctx: Ctx):
     run_guarded(ctx, stage_scope_targets)
     run_guarded(ctx, stage_resend)
     run_guarded(ctx, stage_entry_send)
+    run_guarded(ctx, stage_both_pairing)
     run_guarded(ctx, stage_slice_removals)
     run_guarded(ctx, stage_optional_removals)
     run_guarded(ctx, stage_walk_root_removed)
